@@ -67,3 +67,21 @@ def emit(out, emit_strs, emit_str, Refuse, cps, strlist):
     out.append("")
     emit_strs("LANG_QUERY_KEYS", list(FU.LANG_QUERY_KEYS))
     emit_strs("ISO_3166_1_COUNTRIES_ALPHA_2", sorted(D.ISO_3166_1_COUNTRIES_ALPHA_2))
+
+    # ---- platform parsers (C19)
+    YT = importlib.import_module("ural.youtube")
+    TW = importlib.import_module("ural.twitter")
+    IG = importlib.import_module("ural.instagram")
+    FB = importlib.import_module("ural.facebook")
+    GG = importlib.import_module("ural.google")
+    emit_strs("YOUTUBE_CHANNEL_NAME_BLACKLIST", sorted(YT.YOUTUBE_CHANNEL_NAME_BLACKLIST))
+    emit_strs("TWITTER_SCREEN_NAME_BLACKLIST", sorted(TW.TWITTER_SCREEN_NAME_BLACKLIST))
+    emit_strs("INSTAGRAM_NOT_A_USER_SET", sorted(IG.INSTAGRAM_NOT_A_USER_SET))
+    emit_strs("DRIVE_TYPES", list(GG.DRIVE_TYPES))
+    emit_str("BASE_FACEBOOK_URL", FB.BASE_FACEBOOK_URL)
+    # templates "prefix%s": the model appends the field to the prefix
+    for name in ("YOUTUBE_VIDEO_URL_TEMPLATE", "YOUTUBE_USER_URL_TEMPLATE", "YOUTUBE_CHANNEL_ID_URL_TEMPLATE", "YOUTUBE_CHANNEL_NAME_URL_TEMPLATE", "YOUTUBE_SHORT_URL_TEMPLATE"):
+        t = getattr(YT, name)
+        if not (isinstance(t, str) and t.endswith("%s") and t.count("%") == 1):
+            raise Refuse("%s is not of the shape 'prefix%%s'" % name)
+        emit_str(name + "_PREFIX", t[:-2])
